@@ -157,7 +157,7 @@ FsNext(s, in) ==
     \* scalar path feeds minimum first, bar path feeds maximum first; the two are independent
     LET mn == MinNext(s.minimum, Lw(in))
         mx == MaxNext(s.maximum, Hg(in))
-        out == IF mn.o = mx.o THEN RI(50) ELSE Norm(100 * (Cl(in) - mn.o), mx.o - mn.o)
+        out == IF mn.o = mx.o THEN RI(50) ELSE Pct(Cl(in) - mn.o, mx.o - mn.o)
     IN R([s EXCEPT !.minimum = mn.s, !.maximum = mx.s], out)
 FsReset(s) == [s EXCEPT !.minimum = MinReset(s.minimum), !.maximum = MaxReset(s.maximum)]
 
@@ -232,7 +232,7 @@ ImplStep(kind, p, s, in) ==
             previous == IF steady THEN At(s.deque, s.index) ELSE IF cnt = 1 THEN x ELSE At(s.deque, 0)
             dq == Set(s.deque, s.index, x)
         IN R([s EXCEPT !.count = cnt, !.deque = dq, !.index = Adv(s.index, s.period)],
-             <<IF previous = 0 THEN UNDEF ELSE Norm(100 * (x - previous), previous)>>)
+             <<IF previous = 0 THEN UNDEF ELSE Pct(x - previous, previous)>>)
     [] kind = "ER" ->
         LET x == Cl(in)
             steady == s.count >= s.period
